@@ -52,15 +52,20 @@ func main() {
 }
 
 func safeStep(e engine, ws []string) (res string) {
+	done := false
 	defer func() {
-		if r := recover(); r != nil {
+		// the repository's go.mod says go 1.14: panic(nil) is legal there and recover() returns nil for it, so the
+		// value alone does not tell whether the step panicked
+		if r := recover(); r != nil || !done {
 			res = "PANIC " + panicClass(fmt.Sprint(r))
 			if os.Getenv("VERIF_STACK") != "" {
 				fmt.Fprintln(os.Stderr, string(debug.Stack()))
 			}
 		}
 	}()
-	return e.step(ws)
+	res = e.step(ws)
+	done = true
+	return res
 }
 
 func panicClass(s string) string {
